@@ -35,6 +35,7 @@ type ptsCase struct {
 	Steps   []int  `json:"steps"`    // indices into the step menu
 	BFrames bool   `json:"b_frames"` // packets reached by a negative step are not PTS==DTS
 	Skip    int    `json:"skip"`     // leading packets that are not PTS==DTS (must be refused)
+	Join    bool   `json:"join"`     // after the sequence 35 more tracks join: every rate at every offset, in ascending offset order
 }
 
 func (c *ptsCase) describe() map[string]any {
@@ -42,11 +43,14 @@ func (c *ptsCase) describe() map[string]any {
 	for i, s := range c.Steps {
 		st[i] = menuSteps[s]
 	}
-	return map[string]any{"part": "pts-continuation", "rate": c.Rate, "init": c.Init, "steps": st, "b_frames": c.BFrames, "skip": c.Skip}
+	return map[string]any{"part": "pts-continuation", "rate": c.Rate, "init": c.Init, "steps": st, "b_frames": c.BFrames, "skip": c.Skip, "then_35_tracks_join": c.Join}
 }
 
+// joinClasses counts the placement classes of the joins of one runPTS call.
+type joinClasses [3]int64
+
 // runPTS feeds one step sequence to a fresh decoder. wraps = number of 2^32 crossings (either way).
-func runPTS(c *ptsCase, clk *vclock) (e *oerr, wraps int, p0 int64) {
+func runPTS(c *ptsCase, clk *vclock, jc *joinClasses) (e *oerr, wraps int, p0 int64) {
 	defer func() {
 		if r := recover(); r != nil {
 			e = fail("globaldecoder/panic", "panic: %v", r)
@@ -97,6 +101,28 @@ func runPTS(c *ptsCase, clk *vclock) (e *oerr, wraps int, p0 int64) {
 			return fail(fmt.Sprintf("globaldecoder/pts-continuation/%d", c.Rate), "after step %d (%+d, ts=%d): PTS-PTS(0) = %d, accumulated signed 32-bit differences = %d", i+1, st, ts, p-p0, sum), wraps, p0
 		}
 	}
+	if c.Join {
+		// every packet of the lead was PTS==DTS, so the lead's reference is its last packet
+		tLast := clk.ns
+		for _, off := range menuOffsets { // ascending
+			clk.ns = tLast + off
+			for _, r2 := range menuRates {
+				nt := &trk{rate: r2, sync: true}
+				pkt.Timestamp = c.Init ^ 0x5a5a5a5a
+				got, ok := d.Decode(nt, &pkt)
+				if !ok {
+					return fail("globaldecoder/late-track/refused", "joining track (rate %d, offset %d ns): first packet refused", r2, off), wraps, p0
+				}
+				class, msg := placement(p0+sum, c.Rate, r2, off, got)
+				if msg != "" {
+					return fail("globaldecoder/late-track/multi-join", "%s", msg), wraps, p0
+				}
+				if jc != nil {
+					jc[class]++
+				}
+			}
+		}
+	}
 	return nil, wraps, p0
 }
 
@@ -130,17 +156,28 @@ func partPTS() {
 		init    uint32
 		bf      bool
 		skip, d int
-		pre     int // first two steps (0..99), -1 when d < 2
+		lo, cnt int // block of sequences (as base-10 numbers of d digits)
+		join    bool
 	}
 	var items []item
+	blocks := func(r int, in uint32, bf bool, skip, d int, join bool) {
+		n := pow10(d)
+		blk := n
+		if d > 2 {
+			blk = pow10(d - 2)
+		}
+		for lo := 0; lo < n; lo += blk {
+			items = append(items, item{r, in, bf, skip, d, lo, blk, join})
+		}
+	}
 	for _, r := range menuRates {
 		for _, in := range menuInits {
-			for _, bf := range []bool{false, true} {
-				for pre := 0; pre < 100; pre++ {
-					items = append(items, item{r, in, bf, 0, D, pre})
-				}
+			for d := 0; d <= D; d++ {
+				blocks(r, in, false, 0, d, true) // every sequence of every length 0..D, then the joins
 			}
-			items = append(items, item{r, in, false, 1, 3, -1}, item{r, in, true, 2, 3, -1})
+			blocks(r, in, true, 0, D, false)
+			blocks(r, in, false, 1, 3, false)
+			blocks(r, in, true, 2, 3, false)
 		}
 	}
 	var wrapHist [16]atomic.Int64
@@ -150,20 +187,18 @@ func partPTS() {
 		if tooMany() {
 			return
 		}
-		c := ptsCase{Rate: it.rate, Init: it.init, BFrames: it.bf, Skip: it.skip}
+		c := ptsCase{Rate: it.rate, Init: it.init, BFrames: it.bf, Skip: it.skip, Join: it.join}
 		g := run.Begin("globaldecoder", func() any { return c.describe() })
 		defer g.End()
-		n, base := pow10(it.d), 0
-		if it.pre >= 0 {
-			n, base = pow10(it.d-2), it.pre*pow10(it.d-2)
-		}
+		n, base := it.cnt, it.lo
+		var jc joinClasses
 		var evals, nontriv int64
 		var localWraps [16]int64
 		buf := make([]int, 0, 8)
 		for v := 0; v < n; v++ {
 			buf = digits(base+v, it.d, buf)
 			c.Steps = buf
-			e, wraps, p0 := runPTS(&c, clk)
+			e, wraps, p0 := runPTS(&c, clk, &jc)
 			evals++
 			if p0 != 0 {
 				firstNonZero.Add(1)
@@ -174,7 +209,7 @@ func partPTS() {
 					neg = true
 				}
 			}
-			if wraps > 0 || neg {
+			if wraps > 0 || neg || it.join {
 				nontriv++
 				run.NontrivialHash(mix(1, uint64(it.rate), uint64(it.init), b2u(it.bf), uint64(it.skip), uint64(it.d), uint64(base+v)))
 			}
@@ -182,11 +217,11 @@ func partPTS() {
 			if e != nil {
 				cc := c
 				cc.Steps = append([]int{}, buf...)
-				report("pts", cc, e, func() *oerr { e2, _, _ := runPTS(&cc, clk); return e2 })
+				report("pts", cc, e, func() *oerr { e2, _, _ := runPTS(&cc, clk, nil); return e2 })
 				if tooMany() {
 					break
 				}
-			} else if v == 4321%n && ii%211 == 7 {
+			} else if v == n/3 && ii%211 == 7 {
 				cc := c
 				cc.Steps = append([]int{}, buf...)
 				samplePart("pts", func() any {
@@ -202,6 +237,12 @@ func partPTS() {
 		run.Eval(evals)
 		run.AddInt("pts_sequences", evals)
 		run.AddInt("pts_decode_calls", evals*int64(it.d+1+it.skip))
+		if it.join {
+			run.AddInt("pts_decode_calls", evals*int64(len(menuOffsets)*len(menuRates)))
+			run.AddInt("multi_join_placements_within_oracle", jc[lateOK]+jc[lateBeyondSingleRounding])
+			run.AddInt("multi_join_placements_unrepresentable", jc[lateUnrepresentable])
+			run.AddInt("multi_join_placements_beyond_1tick_each_clock_plus_1ns", jc[lateBeyondSingleRounding])
+		}
 		for w, k := range localWraps {
 			if k > 0 {
 				wrapHist[w].Add(k)
@@ -246,6 +287,36 @@ const (
 	lateBeyondSingleRounding // within the oracle, but further than 1/r1 + 1/r2 + 1ns from the exact place
 )
 
+// placement judges the first PTS of a track (rate r2) that joins offNs after the lead's (rate r1)
+// packet with PTS leadPTS: exact place = leadPTS*r2/r1 + offNs*r2/1e9, allowed distance < 2 ticks of r2.
+func placement(leadPTS int64, r1i, r2i int, offNs, got int64) (class int, msg string) {
+	q1, r1, ok1 := floorMulDiv(leadPTS, int64(r2i), int64(r1i))
+	q2, r2, ok2 := floorMulDiv(offNs, int64(r2i), 1e9)
+	if !ok1 || !ok2 || q1 > math.MaxInt64-q2-4 {
+		return lateUnrepresentable, ""
+	}
+	den := int64(r1i) * 1e9
+	num := r1*1e9 + r2*int64(r1i) // exact place = q1+q2 + num/den, num/den in [0,2)
+	dd := got - q1 - q2
+	bad := dd < -2 || dd > 4
+	if !bad {
+		x := dd*den - num // (got - exact) * den
+		bad = x <= -2*den || x >= 2*den
+		if !bad {
+			// informational: distance against one tick of each clock plus 1 ns
+			dist := math.Abs(float64(x) / float64(den)) // in ticks of r2
+			if dist > 1+float64(r2i)/float64(r1i)+float64(r2i)/1e9 {
+				class = lateBeyondSingleRounding
+			}
+		}
+	}
+	if bad {
+		return 0, fmt.Sprintf("joining track (rate %d) first PTS = %d; lead (rate %d) PTS %d and %d ns elapsed place it at %d + %d/%d ticks (allowed distance < 2 ticks)",
+			r2i, got, r1i, leadPTS, offNs, q1+q2, num, den)
+	}
+	return class, ""
+}
+
 func runLate(c *lateCase, clk *vclock) (e *oerr, class int) {
 	defer func() {
 		if r := recover(); r != nil {
@@ -286,33 +357,9 @@ func runLate(c *lateCase, clk *vclock) (e *oerr, class int) {
 	if !ok {
 		return fail("globaldecoder/late-track/refused", "joining track: first packet refused"), 0
 	}
-	q1, r1, ok1 := floorMulDiv(leadPTS, int64(c.R2), int64(c.R1))
-	q2, r2, ok2 := floorMulDiv(c.OffNs, int64(c.R2), 1e9)
-	if !ok1 || !ok2 || q1 > math.MaxInt64-q2-4 {
-		class = lateUnrepresentable
-	} else {
-		den := int64(c.R1) * 1e9
-		num := r1*1e9 + r2*int64(c.R1) // exact place = q1+q2 + num/den, num/den in [0,2)
-		dd := got - q1 - q2
-		bad := dd < -2 || dd > 4
-		if !bad {
-			x := dd*den - num // (got - exact) * den
-			bad = x <= -2*den || x >= 2*den
-			if !bad {
-				// informational: distance against one tick of each clock plus 1 ns
-				dist := float64(x) / float64(den) // in ticks of r2
-				if dist < 0 {
-					dist = -dist
-				}
-				if dist > 1+float64(c.R2)/float64(c.R1)+float64(c.R2)/1e9 {
-					class = lateBeyondSingleRounding
-				}
-			}
-		}
-		if bad {
-			return fail("globaldecoder/late-track", "joining track (rate %d) first PTS = %d; lead (rate %d) PTS %d and %d ns elapsed place it at %d + %d/%d ticks (allowed distance < 2 ticks)",
-				c.R2, got, c.R1, leadPTS, c.OffNs, q1+q2, num, den), 0
-		}
+	class, msg := placement(leadPTS, c.R1, c.R2, c.OffNs, got)
+	if msg != "" {
+		return fail("globaldecoder/late-track", "%s", msg), 0
 	}
 
 	// the second track continues by rule 1, the lead is not disturbed
